@@ -1,4 +1,5 @@
 import Originium.Model.SysProofs
+import Originium.Model.TxnTie
 /-! # C05 — a transaction reads from one fixed snapshot plus its own writes
 
 `Sys.run steps` executes any interleaving of the fine-grained steps of any number of transactions
@@ -102,10 +103,38 @@ example : (Sys.run [.begin true, .waited 0, .set 0 [97] (some [1]), .commitStart
     .bg .rotate, .bg (.flushAdd 4), .bg .flushRemove, .get 1 [97], .mark 1, .bg (.compact [true] 1 4), .get 1 [97]]).isSome = true := by
   decide
 
+
+/-- the Go code itself (`oracle.readTs`, `Txn.Get`, `Txn.Discard`, translated from /repo on every run): Begin takes the
+    snapshot `nextTs - 1`, registers it with the read mark while it holds the oracle lock and returns only after the
+    commit mark has reached it (every commit at or below the snapshot is applied before the first read); a Get of a
+    read-write transaction answers from its own write buffer first (a pending delete reads as absent) and otherwise goes
+    to the store at exactly that snapshot; Discard releases the read mark once -/
+theorem C05_code_snapshot_and_own_writes (next : Nat) (t : Oracle2.Txn) (k : List UInt8) (hk : k ≠ []) (reads : List (List UInt8)) :
+    GenTxn.readTs next false [] = some (next - 1, ["Lock", "readMark.Begin readTs", "Unlock", "commitMark.WaitForMark readTs"]) ∧
+    GenTxn.readTs next true [] = none ∧
+    (GenTxn.get (!t.update) false k t.readTs (TxnTie.pendOf t.writes) reads).1 =
+      (if t.update then
+        match Oracle2.lookupW k t.writes with
+        | some (some b) => GenTxn.R.direct b true
+        | some none => GenTxn.R.direct [] false
+        | none => GenTxn.R.search k t.readTs
+       else GenTxn.R.search k t.readTs) ∧
+    GenTxn.discard false [] = (true, ["oracle.doneRead"]) ∧ GenTxn.discard true [] = (true, []) := by
+  refine ⟨by rw [TxnTie.readTs_table]; rfl, by rw [TxnTie.readTs_table]; rfl, ?_, by rw [TxnTie.discard_table]; rfl, by rw [TxnTie.discard_table]; rfl⟩
+  rw [TxnTie.get_table t k hk]
+  cases t.update with
+  | false => rfl
+  | true =>
+    simp only [↓reduceIte]
+    cases Oracle2.lookupW k t.writes with
+    | none => rfl
+    | some v => cases v <;> rfl
+
 #print axioms C05_snapshot
 #print axioms C05_stable
 #print axioms C05_prefix
 #print axioms C05_includes_earlier
 #print axioms C05_excludes_later
 #print axioms C05_gc_safe
+#print axioms C05_code_snapshot_and_own_writes
 end Props
